@@ -20,7 +20,9 @@
        literal segment, and it is not a section that holds passwords;
      - [last_seg_safe]: the literal tail contains a dot, so the last segment of every instance is that literal
        segment, and it is not "password"; for reads that return values BELOW the key two literal dots are
-       required as well, so that the key has at least three segments and nothing below it is a password path.
+       required as well (the key has at least three segments) and the literal first segment must not be
+       "sasl" (whose profiles nest: sasl.a.b.password is the password of profile "a.b"), so that nothing
+       below the key is a password path.
    Everything else -- in particular "sasl."+x, "notifier."+x, x+".password", any PUnknown -- is rejected.
 
    Model only: no proofs here. *)
@@ -63,14 +65,25 @@ Definition row_feeds (r : rrow) : string := match r with RRow _ _ _ _ _ f _ => f
 (* password paths and agreement of two configurations except for password values                     *)
 (* ------------------------------------------------------------------------------------------------ *)
 
-Definition pw_sections : list bytes := [pb "sasl"; pb "notifier"].
+(* Sections that hold passwords.
+   - "sasl": a profile is named BY VALUE (client-profile.<p>.sasl = "<name>", read by helpers/sarama.go as
+     "sasl." + name + ".password"), and the name may contain dots: a profile "prod.east" (TOML [sasl.prod.east])
+     is nested inside the profile "prod".  So every path  sasl.<s1>. ... .<sk>.password  (k >= 1) is a password.
+   - "notifier": modules are the TOP-LEVEL keys of the section (notifier coordinator: keys of
+     viper.GetStringMap("notifier")), so only  notifier.<n>.password  with a one-segment <n> is a password
+     (notifier.<n>.extras.password is an "extras" entry, shown by design). *)
+Definition deep_sections : list bytes := [pb "sasl"].
+Definition flat_sections : list bytes := [pb "notifier"].
+Definition pw_sections : list bytes := deep_sections ++ flat_sections.
 Definition pw_key : bytes := pb "password".
 
+Definition in_deep_section (a : bytes) : bool := existsb (beq a) deep_sections.
+Definition in_flat_section (a : bytes) : bool := existsb (beq a) flat_sections.
+Definition in_pw_section (a : bytes) : bool := existsb (beq a) pw_sections.
+
 Definition is_pw (path : list bytes) : bool :=
-  match path with
-  | [a; _; c] => existsb (beq a) pw_sections && beq c pw_key
-  | _ => false
-  end.
+  Nat.leb 3 (List.length path) && beq (last path []) pw_key &&
+  (in_deep_section (hd [] path) || (in_flat_section (hd [] path) && Nat.eqb (List.length path) 3)).
 
 (* same shape, same keys, same values -- except that the values at password paths may differ *)
 Fixpoint agree (p : list bytes) (t t' : tree) {struct t} : Prop :=
@@ -220,13 +233,12 @@ Fixpoint lead (pat : list pelem) : bytes :=
   | _ => []
   end.
 
-Definition in_pw_section (a : bytes) : bool := existsb (beq a) pw_sections.
-
 (* no password path is [path] itself or lies below it *)
 Definition path_below_ok (path : list bytes) : bool :=
   match path with
   | [] => false
-  | a :: _ => negb (in_pw_section a) || (Nat.leb 3 (List.length path) && negb (is_pw path))
+  | a :: _ => negb (in_pw_section a)
+              || (negb (in_deep_section a) && Nat.leb 3 (List.length path) && negb (is_pw path))
   end.
 
 (* the pattern starts with literal text that contains a dot and whose first segment is not a section that
@@ -234,6 +246,11 @@ Definition path_below_ok (path : list bytes) : bool :=
 Definition first_seg_safe (pat : list pelem) : bool :=
   let l := lower (lead pat) in
   Nat.ltb 0 (count_dots l) && negb (in_pw_section (hd [] (split_dots l))).
+
+(* the literal head contains a dot and its first segment is not a section with nested password paths *)
+Definition first_seg_not_deep (pat : list pelem) : bool :=
+  let l := lower (lead pat) in
+  Nat.ltb 0 (count_dots l) && negb (in_deep_section (hd [] (split_dots l))).
 
 (* the pattern ends with literal text that contains a dot and whose last segment is not "password":
    whatever fills the holes (dots, upper case, nothing), the last segment of the key is that literal segment *)
@@ -261,7 +278,7 @@ Definition exact_ok (pat : list pelem) : bool :=
 (* no instance of the pattern is a password path or a prefix of one *)
 Definition below_ok (pat : list pelem) : bool :=
   if forallb is_fix pat then path_below_ok (key_path (lead pat))
-  else first_seg_safe pat || (last_seg_safe pat && Nat.leb 2 (fixed_dots pat)).
+  else first_seg_safe pat || (last_seg_safe pat && Nat.leb 2 (fixed_dots pat) && first_seg_not_deep pat).
 
 Definition row_ok (r : rrow) : bool :=
   let pat := row_pat r in
